@@ -388,6 +388,19 @@ pub fn run(case: &Case) -> Vec<(String, String)> {
                         None => Ok(n),
                         Some(k) => Err(mismatch(*requested, types[k])),
                     };
+                    // the typed pair iteration goes from item to item: a record of another type is a mismatch, every
+                    // record of the requested type comes with its own row
+                    let items: Vec<Result<(Ty, Option<i64>), String>> = with_ty!(*requested, S => {
+                        let sr = ShapeReader::with_shx(Dev::quiet(enc.bytes.clone()), Dev::quiet(shx.clone())).expect("open");
+                        let dr = shapefile::dbase::Reader::new(Dev::quiet(dbf.data())).expect("open dbf");
+                        let mut r = shapefile::Reader::new(sr, dr);
+                        let v: Vec<Result<(Ty, Option<i64>), String>> = r.iter_shapes_and_records_as::<S, shapefile::dbase::Record>().take(2 * n + 2).map(|x| x.map(|(s, row)| (variant_ty(&Shape::from(s)), crate::table::row_idx(&row))).map_err(|e| err_kind(&e))).collect();
+                        v
+                    }, unreachable!());
+                    let expected: Vec<Result<(Ty, Option<i64>), String>> = (0..n).map(|i| expect_at(i).map(|t| (t, Some(i as i64)))).collect();
+                    if items != expected {
+                        out.push(("mixed-file:complete-reader:pair-iteration".to_string(), format!("iter_shapes_and_records_as::<{}, Record>() yields {:?}, expected {:?} (shape i with row i behind a record of another type, too)", requested.name(), items, expected)));
+                    }
                     if collected != want {
                         out.push(("mixed-file:complete-reader:read_as".to_string(), format!("Reader::read_as::<{}, Record>() = {:?}, expected {:?} (the first mismatching record)", requested.name(), collected, want)));
                     }
@@ -787,7 +800,7 @@ pub fn check(tier: Tier) -> i32 {
             tier,
             level: "model_checking",
             engine: "E2 complete type matrix on the real reader / conversions; files by the library writer (13 types) and by RefCodec (null and mixed-type files)",
-            rule: "all 13 x 14 ordered (requested S, actual T) pairs x files of 1-2 (thorough 3) records over 3 structures, plus files whose last record has any other of the 14 types; every shape value of the C01 quick structure set for the identity / conversion clauses against all 13 target types; bulk conversion with the wrong element at every position of vectors of length 1-3 for all 13 x 13 pairs; hand-encoded 3-record files over {S, another type, null} for every S through ShapeReader::new / with_shx / with_shx with every index entry doubled / the complete Reader; 3-record files of every type located by a hand-made index (4 physical orders x fillers or not x the entries' length fields as they are, 2, 0, +1, -1, i32::MAX, or stretched over the filler behind each record so that they chain; also with the records stored without their optional M block): typed against generic-then-converted for read, iteration, random access at every position, and the complete Reader's bulk reads from four states next to a table of as many rows, of one unparsable row more, and of one row less (in memory) and read_shapes / from_path (on disk); non-trivial = every case",
+            rule: "all 13 x 14 ordered (requested S, actual T) pairs x files of 1-2 (thorough 3) records over 3 structures, plus files whose last record has any other of the 14 types; every shape value of the C01 quick structure set for the identity / conversion clauses against all 13 target types; bulk conversion with the wrong element at every position of vectors of length 1-3 for all 13 x 13 pairs; hand-encoded 3-record files over {S, another type, null} for every S through ShapeReader::new / with_shx / with_shx with every index entry doubled / the complete Reader (bulk read, and the typed pair iteration going on behind a mismatch: shape i with row i); 3-record files of every type located by a hand-made index (4 physical orders x fillers or not x the entries' length fields as they are, 2, 0, +1, -1, i32::MAX, or stretched over the filler behind each record so that they chain; also with the records stored without their optional M block): typed against generic-then-converted for read, iteration, random access at every position, and the complete Reader's bulk reads from four states next to a table of as many rows, of one unparsable row more, and of one row less (in memory) and read_shapes / from_path (on disk); non-trivial = every case",
             bounds: json!({"matrix": "13x14 complete", "cases": cases.len()}),
             exhaustive: true,
             assumptions: vec!["type names in errors are compared through their integer codes (Display names are C19's); the text of a mismatch error is only asked to put each type name behind the right one of the words 'request..' / 'actual', when it uses them".into()],
